@@ -1,4 +1,5 @@
 //! C09 — multi-party PSET blinding balances for every split and order of blinders.
+use crate::refimpl::Variant as _;
 use std::collections::{BTreeMap, HashMap};
 use std::str::FromStr;
 
@@ -452,7 +453,7 @@ fn histories(t: &mut Tape, ctx: &mut Ctx) -> R {
             .enumerate()
             .map(|(j, o)| format!("{}:{}", j, match (o.owner, o.fee) { (Some(p), _) => format!("blinded-by-{}(index {}, script {:02x?}.. {} bytes)", p, case.pset.outputs()[j].blinder_index.unwrap_or(u32::MAX), case.pset.outputs()[j].script_pubkey.as_bytes().iter().take(2).collect::<Vec<_>>(), case.pset.outputs()[j].script_pubkey.len()), (None, true) => "fee".into(), _ => "explicit".into() }))
             .collect();
-        let input_forms: Vec<&str> = case.utxos.iter().map(|u| match (u.asset.is_confidential(), u.value.is_confidential()) { (true, true) => "conf", (true, false) => "asset-only", (false, true) => "amount-only", _ => "explicit" }).collect();
+        let input_forms: Vec<&str> = case.utxos.iter().map(|u| match (u.asset.v_conf(), u.value.v_conf()) { (true, true) => "conf", (true, false) => "asset-only", (false, true) => "amount-only", _ => "explicit" }).collect();
         let issuing: Vec<usize> = (0..case.utxos.len()).filter(|i| case.pset.inputs()[*i].has_issuance()).collect();
         Failure { msg: clip(format!("{}\n order={:?} owner of each input={:?} input forms={:?} issuing inputs={:?}\n outputs=[{}]\n shapes={:?}", f.msg, order, owners, input_forms, issuing, outs.join(", "), case.shapes)), panic_loc: f.panic_loc }
     };
